@@ -1,4 +1,5 @@
 import Bpmn.Props.C05
+import Bpmn.Props.EngineSteps
 import Bpmn.Props.EngineCurrent
 import Bpmn.Props.C05Tracker
 open Bpmn.Props.C05 Bpmn.Props.EngineCurrent
@@ -18,3 +19,4 @@ open Bpmn.Props.C05 Bpmn.Props.EngineCurrent
 #print axioms fresh_view_no_early_release
 #print axioms first_activation_view
 #print axioms C05_counterexample_stale_view
+#print axioms Bpmn.Props.EngineSteps.incl_step_holds
